@@ -95,7 +95,9 @@ Pr(n, v, vk) == [name |-> n, value |-> v, vk |-> vk]
 RECURSIVE RepS(_, _)
 RepS(s, n) == IF n = 0 THEN "" ELSE s \o RepS(s, n - 1)
 LongStr(n) == "\"" \o RepS("lorem ipsum ", n) \o "end\""
-PropSets == { <<Pr("p1", LongStr(k), "str")>> : k \in {100, 169, 170, 171, 300} } \cup { <<Pr("p1", "v1", "id")>>, <<Pr("p1", "\"a b\"", "str")>>, <<Pr("p1", "1.50", "num")>>,
+\* vocabulary: property names the LEF reference reserves for later versions (LEF58_...) are property names like any other
+PropSets == { <<Pr("p1", LongStr(k), "str")>> : k \in {100, 169, 170, 171, 300} }
+      \cup { <<Pr("LEF58_SPACING", "\"SPACING 0.1 ENDOFLINE 0.2 ;\"", "str")>>, <<Pr("LEF58_TYPE", "v1", "id"), Pr("lef58_x", "\"q\"", "str")>> } \cup { <<Pr("p1", "v1", "id")>>, <<Pr("p1", "\"a b\"", "str")>>, <<Pr("p1", "1.50", "num")>>,
               <<Pr("p1", "v1", "id"), Pr("p2", "\"s\"", "str"), Pr("p3", "-3", "num")>>,
               \* the same list spread over two and over three PROPERTY statements
               <<Pr("p1", "1", "num"), Pr("", "", "split"), Pr("p2", "\"two\"", "str"), Pr("p3", "x", "id")>>,
